@@ -445,4 +445,14 @@ def match_tolerance(repo: Repo) -> RuleRun:
 match_tolerance.rule_id = "C17.MATCH-TOLERANCE"
 
 
-RULES = [purity, position_writers, link_algebra, affine_kinds, mirror_matrix, trig_domain, params_used, owns_geometry, angle_dimension, closest_search, float_stores, who_writes_points, symmetry_exact, angle_between_exact, match_tolerance]
+def links_accumulate(repo: Repo) -> RuleRun:
+    """'After the leader of a link moves, the follower is ...' - every follower of that leader. Same rule as C13.LINKS-ACCUMULATE."""
+    from . import c13
+
+    return c13.links_accumulate(repo, PROP, "C17.LINKS-ACCUMULATE")
+
+
+links_accumulate.rule_id = "C17.LINKS-ACCUMULATE"
+
+
+RULES = [purity, position_writers, link_algebra, affine_kinds, mirror_matrix, trig_domain, params_used, owns_geometry, angle_dimension, closest_search, float_stores, who_writes_points, symmetry_exact, angle_between_exact, match_tolerance, links_accumulate]
